@@ -251,7 +251,7 @@ def _impl_one(case):
         out = {"after": after, "error": err, "trace": ev.ev, "entered": entered, "parses": parses, "missing": bool(case.get("missing")), **rec}
         # the property's oracle runs here, in the worker (it re-parses intermediate texts to attribute a failure to one CST change)
         out["fails"] = oracle(src, out)
-        out["change_kinds"] = ([ch["what"] for ch in align(out["nodes_before"], out["nodes_after"], parses)]
+        out["change_kinds"] = ([ch["what"] for ch in align(out["nodes_before"], out["nodes_after"], parses, out.get("edits"))]
                                if out.get("nodes_after") is not None else [])
         return out
     finally:
@@ -470,7 +470,20 @@ def _wrong_open_paren(v: str) -> bool:
     return bool(m) and v.find("(", start) != m.end() - 1
 
 
-def align(nb, na, parses):
+def _bad_annotation(edits, hdr):
+    """does the AST stage ask for a parameter annotation that is no valid annotation, for the definition of header node `hdr`?"""
+    for e in edits or []:
+        if e.get("name") == hdr["name"] and hdr["start"] <= e.get("lineno", -1) <= hdr["stop"] and "args" in e:
+            for a in e["args"]["args"]:
+                if a["ann"] is not None:
+                    try:
+                        ast.parse("def _(x: %s): pass" % a["ann"])
+                    except (SyntaxError, ValueError):
+                        return True
+    return False
+
+
+def align(nb, na, parses, edits=None):
     """Align the real CST before / after the splice (the frame property makes this possible) -> list of changes:
     {what, start, end (after-file line numbers of the changed text), hdr (the header node it belongs to), flags}."""
     returns_of = {}
@@ -544,9 +557,9 @@ def align(nb, na, parses):
                 # the scanner does not flush a decorated one-line stub at the end of the file: the header node also holds the body
                 # (`... # stub`), which `remove_return_typ` / the argument surgery cut or duplicate
                 fl.append("header-node-has-tail")
-            if not fl and _header_parses(x["value"]) and not _header_parses(y["value"]):
-                # the slices are where they should be, yet the rebuilt header is no header: an annotation taken over from the docstring
-                # (`:type K: *Union[int, str]`) is not an expression that may stand there
+            if _bad_annotation(edits, x) and _header_parses(x["value"]) and not _header_parses(y["value"]):
+                # an annotation the AST stage took over from the docstring (`:type K: *Union[int, str]`) is not an expression that may
+                # stand there, and the rebuilt header does not parse
                 fl.append("new-annotation-unparsable")
             bp, ap = x["value"][: max(x["value"].rfind(")"), 0)], y["value"][: max(y["value"].rfind(")"), 0)]
             fl.append("header-resynth" if bp != ap else "return-type-changed")
@@ -756,7 +769,7 @@ def oracle(src: str, r: dict):
     except (SyntaxError, ValueError):
         fails.append(({"clause": "atomic", "error": "none"}, "the input is not valid Python, yet doctrans rewrote the file"))
         return fails
-    changes = align(r["nodes_before"], r["nodes_after"], r.get("parses")) if r.get("nodes_before") is not None and r.get("nodes_after") is not None else []
+    changes = align(r["nodes_before"], r["nodes_after"], r.get("parses"), r.get("edits")) if r.get("nodes_before") is not None and r.get("nodes_after") is not None else []
     try:
         ta = ast.parse(after)
     except (SyntaxError, ValueError) as e:
